@@ -159,6 +159,10 @@ def run(chk):
     chk.rule("R01.6", "cache alphabet constants (shared with C01)")
     chk.rule("R01.7", "cache window forms: the table lookup must see the same 2W-wide window as the automaton scorer (shared with C01)")
     c01_cache.run(chk, facts.world(cfgname(F)))
+    # the only feature-gated code of the serialised form: trailing-zero trimming of fixed-length weights
+    from . import c14
+    chk.rule("R14.4", "fixed weight vectors: trim_end_zeros drops only trailing zeros (shared with C14)")
+    c14.trim_table(chk, facts.world(cfgname(F)))
 
 
 def twins(chk):
